@@ -173,7 +173,7 @@ SCompute(c, w) ==
   /\ Got(c, "spec") /\ ss[c].stage = "dspe" /\ ss[c].ans.how = "ok"
   /\ LET n == ss[c].a.n  e == ss[c].e  spe == ss[c].ans.spe  A == ss[c].A  R == ss[c].R IN
      /\ w \in Assignments(e, spe, A, R)
-     /\ OrderOK(e, spe, A, R, w)
+     /\ OrderOK(e, spe, A, R, w) = TRUE      \* "= TRUE": a state predicate (TLC must not enumerate the witnesses inside as moves)
      /\ LET ent == [real |-> R, syn |-> IF SDefect = "nosynth" THEN EmptyF ELSE w, pk |-> A, junk |-> FALSE, oid |-> sg.oid + 1] IN
         /\ sc' = [sc EXCEPT ![n] = IF SDefect = "nobound" THEN [fifo |-> Append(sc[n].fifo, e),
                                                                  dut |-> [x \in DOMAIN sc[n].dut \cup {e} |-> IF x = e THEN ent ELSE sc[n].dut[x]]]
